@@ -97,6 +97,12 @@ func vFamilyLine(tag string, f int) string {
 		return "[plural value=1 one=" + x + " other=y][/plural]."
 	case 10:
 		return "[a=1.5 p=true/]" + x
+	case 11:
+		return x + " [a]" + x // parses, and leaves a marker open at the end of the line
+	case 12:
+		return "[a][b]" + x + "[/c]" // refused by the attribute builder while two markers are open
+	case 13:
+		return x + "[/]" // close-all with nothing open
 	}
 	// arbitrary short ASCII line
 	s := vString(tag+".raw", 3)
@@ -106,7 +112,7 @@ func vFamilyLine(tag string, f int) string {
 	return s
 }
 
-const vFamilySize = 12
+const vFamilySize = 15
 
 // VHMarkupHistory: real histories. H lines of the family are parsed on one parser value, then a line of
 // the family; the result equals what a fresh parser returns for that line. (Complements VHMarkupPure,
@@ -114,18 +120,47 @@ const vFamilySize = 12
 func VHMarkupHistory() {
 	h := vParam("H", 1)
 	used := LineParser{}
+	var held, copies []*ParseResult
 	for i := 0; i < h; i++ {
-		used.ParseMarkup(vFamilyLine("hist"+vItoa(i), vChoose("hist"+vItoa(i)+".family", vFamilySize)))
+		r, err := used.ParseMarkup(vFamilyLine("hist"+vItoa(i), vChoose("hist"+vItoa(i)+".family", vFamilySize)))
+		if err == nil && r != nil {
+			held = append(held, r)
+			copies = append(copies, vCopyResult(r))
+		}
 	}
 	line := vFamilyLine("line", vChoose("line.family", vFamilySize))
 	fresh := LineParser{}
 	r1, e1 := used.ParseMarkup(line)
 	r2, e2 := fresh.ParseMarkup(line)
 	vAssert((e1 != nil) == (e2 != nil), "after any history a parser fails exactly when a fresh one does")
+	// results handed out earlier belong to whoever holds them: later parses do not change them
+	for i := range held {
+		vAssert(vResultSame(held[i], copies[i]), "a result returned earlier is not changed by later parses")
+		for _, a := range held[i].Attributes {
+			if a.Length > 0 {
+				vReach("held-attribute")
+			}
+			_ = held[i].TextForAttribute(a)
+		}
+	}
 	if e1 != nil || e2 != nil {
 		vReach("error")
 		return
 	}
 	vReach("parsed")
 	vAssert(vResultSame(r1, r2), "after any history a parser returns what a fresh parser returns")
+}
+
+// vCopyResult: a deep copy of a parse result.
+func vCopyResult(r *ParseResult) *ParseResult {
+	c := &ParseResult{Text: r.Text}
+	for _, a := range r.Attributes {
+		b := a
+		b.Properties = map[string]Value{}
+		for k, v := range a.Properties {
+			b.Properties[k] = v
+		}
+		c.Attributes = append(c.Attributes, b)
+	}
+	return c
 }
